@@ -5,7 +5,7 @@
    how long the wait really took).  All theorems are for every callback / socket script, every selector script and
    every fuel (a truncated run is a prefix of the real one). *)
 From Coq Require Import ZArith List Bool Lia.
-From EN Require Import Lib.Bytes IO.Retry IO.RetryEnv IO.SendAll IO.SendMsg IO.Budget Proofs.C11_retry Proofs.C11_budget Proofs.C11_env IO.ClientLocks Proofs.C11_locks.
+From EN Require Import Lib.Bytes IO.Retry IO.RetryEnv IO.SendAll IO.SendMsg IO.Budget Proofs.C11_retry Proofs.C11_budget Proofs.C11_env IO.ClientLocks Proofs.C11_locks IO.Datagram IO.SslMap Proofs.C11_dgram_ssl.
 Import ListNotations.
 Open Scope Z_scope.
 
@@ -233,6 +233,71 @@ Theorem retry_w_is_retry_loop :
     /\ rr_waits r' = rr_waits r /\ rr_calls r' = rr_calls r.
 Proof. exact retry_w_list_instance. Qed.
 Print Assumptions retry_w_is_retry_loop.
+
+(* ---- UDP client (IO/Datagram.v): lock_with_timeout, then one _retry around socket.recv() / socket.send().
+   The waits of the call = the blocking lock acquire (if any) followed by the selector waits. *)
+Theorem op_budget_udp_recv_packet :
+  forall (F : nat) (ri : tmo) (t : Z) (l : lockans) (s : list recvans) (sels : list selans),
+    (match ri with None => True | Some x => 0 < x end) ->
+    let res := udp_recv_packet F ri (Some t) (Some l) s sels in
+    within_budget t
+      (map (fun req => {| w_write := false; w_req := req; w_ready := true; w_el := lk_dt (fst res) |}) (lk_waits (fst res))
+       ++ match snd res with Some r => rr_waits r | None => [] end).
+Proof. intros. apply (locked_retry_budget _ _ dgram_recv). assumption. Qed.
+Print Assumptions op_budget_udp_recv_packet.
+
+Theorem op_budget_udp_send_packet :
+  forall (F : nat) (ri : tmo) (t : Z) (l : lockans) (data : bytes) (s : sock) (sels : list selans),
+    (match ri with None => True | Some x => 0 < x end) ->
+    let res := udp_send_packet F ri (Some t) (Some l) data s sels in
+    within_budget t
+      (map (fun req => {| w_write := false; w_req := req; w_ready := true; w_el := lk_dt (fst res) |}) (lk_waits (fst res))
+       ++ match snd res with Some r => rr_waits r | None => [] end).
+Proof. intros. apply (locked_retry_budget _ _ (dgram_send data)). assumption. Qed.
+Print Assumptions op_budget_udp_send_packet.
+
+Theorem udp_zero_and_infinite_timeout :
+  forall (F : nat) (ri : tmo) (lk : option lockans) (data : bytes) (rs : list recvans) (s : sock) (sels : list selans),
+    (* timeout 0: no blocking lock acquire, no selector wait, for receive and send *)
+    (lk_waits (fst (udp_recv_packet F ri (Some 0) lk rs sels)) = []
+     /\ match snd (udp_recv_packet F ri (Some 0) lk rs sels) with Some r => rr_waits r = [] | None => True end)
+    /\ (lk_waits (fst (udp_send_packet F ri (Some 0) lk data s sels)) = []
+        /\ match snd (udp_send_packet F ri (Some 0) lk data s sels) with Some r => rr_waits r = [] | None => True end)
+    (* timeout None: never TimeoutError *)
+    /\ (forall r, snd (udp_recv_packet F ri None lk rs sels) = Some r -> rr_out r <> RTimeout)
+    /\ (forall r, snd (udp_send_packet F ri None lk data s sels) = Some r -> rr_out r <> RTimeout).
+Proof.
+  intros. unfold udp_recv_packet, udp_send_packet.
+  destruct (locked_retry_zero _ _ dgram_recv F ri lk rs sels) as [A1 A2].
+  destruct (locked_retry_zero _ _ (dgram_send data) F ri lk s sels) as [B1 B2].
+  unfold locked_waits in A1, B1.
+  split; [split; [exact A2|]|split; [split; [exact B2|]|split]].
+  - destruct (snd (locked_retry dgram_recv F ri (Some 0) lk rs sels)); [|exact I].
+    apply app_eq_nil in A1. apply A1.
+  - destruct (snd (locked_retry (dgram_send data) F ri (Some 0) lk s sels)); [|exact I].
+    apply app_eq_nil in B1. apply B1.
+  - intros r. apply locked_retry_inf_no_timeout.
+  - intros r. apply locked_retry_inf_no_timeout.
+Qed.
+Print Assumptions udp_zero_and_infinite_timeout.
+
+(* ---- SSLStreamTransport (IO/SslMap.v: _try_ssl_method).  A send through the SSL object keeps the budget, and its
+   i-th selector wait waits for exactly the event the i-th blocking SSL answer asked for: readability after
+   SSLWantRead / SSLSyscallError, writability after SSLWantWrite.  (The receive direction is op_budget_recv_packet,
+   which holds for every receive script, in particular ssl_recv_answer's.) *)
+Theorem op_budget_ssl_send :
+  forall (F : nat) (ri : tmo) (t : Z) (data : bytes) (script : list sslans) (wire : bytes) (sels : list selans),
+    (match ri with None => True | Some x => 0 < x end) ->
+    within_budget t (rr_waits (ssl_send F ri (Some t) data script wire sels)).
+Proof. exact ssl_send_budget. Qed.
+Print Assumptions op_budget_ssl_send.
+
+Theorem ssl_wait_mapping :
+  forall (F : nat) (ri T : tmo) (data : bytes) (script : list sslans) (wire : bytes) (sels : list selans),
+    let r := ssl_send F ri T data script wire sels in
+    map w_write (rr_waits r) = firstn (length (rr_waits r)) (ssl_wait_events script).
+Proof. exact ssl_send_wait_mapping. Qed.
+Print Assumptions ssl_wait_mapping.
 
 (* ---- lock discipline of TCPNetworkClient / UDPNetworkClient (IO/ClientLocks.v): send lock + receive lock, the
    calls of several threads as a labelled transition system (Start / Grant / GiveUp / Finish), any history. *)
